@@ -147,6 +147,7 @@ type Endpoint struct {
 	Recv   []Event
 	EOF    bool
 	RdErr  error
+	Illegal string // first frame sequence a real peer would have answered with a connection error
 	RdDone bool
 	WrErr  error
 	// pending header block at the reader
@@ -362,6 +363,15 @@ func (e *Endpoint) ReadLoop() {
 			return
 		}
 		plen := int(f.Header().Length)
+		if e.pend != nil {
+			// a header block is open: only a CONTINUATION of the same stream may follow (RFC 7540 section 6.10);
+			// a real peer answers anything else with a connection error PROTOCOL_ERROR
+			if cf, ok := f.(*http2.ContinuationFrame); !ok || cf.StreamID != e.pend.Stream {
+				if e.Illegal == "" {
+					e.Illegal = fmt.Sprintf("%v frame on stream %d inside the header block of stream %d", f.Header().Type, f.Header().StreamID, e.pend.Stream)
+				}
+			}
+		}
 		switch f := f.(type) {
 		case *http2.HeadersFrame:
 			ev := &Event{T: "headers", Stream: f.StreamID, EndStream: f.StreamEnded(), MaxFrame: plen, Tick: vrt.Tick()}
